@@ -325,6 +325,7 @@ package imports
 //@ func scanFiles
 //@   requires tags != nil
 //@   names (imps, testImps, err)
+//@   modifies fd*, gPos, gBase, gLen, gIn, bytes, C_Slice, H_Str, F_S_imports_importReader_*, M*
 //@   at call imports.ShouldBuild#1: requires !explicitFiles && tags == my_tags
 //@   at call imports.ShouldBuild#1: requires sameSlice(content, data)
 //@   at call imports.ReadImports#1: requires !reportSyntaxError
@@ -334,7 +335,7 @@ package imports
 //@   ensures err == nil ==> numFiles > 0
 //@ func ScanDir
 //@   requires tags != nil
-//@   modifies new H_Int, new H_Str
+//@   modifies new H_Int, fd*, gPos, gBase, gLen, gIn, bytes, C_Slice, H_Str, F_S_imports_importReader_*, M*
 //@   at call filepath.Join#1: requires isRegularS(typeOfS(info)) && !(len(name) >= 1 && at(name, lo(name)) == '_') && len(name) >= 3 && at(name, hi(name)-3) == '.' && at(name, hi(name)-2) == 'g' && at(name, hi(name)-1) == 'o'
 //@   at call filepath.Join#1: requires tags["*"] || firstIdx(stemOf(name), '_') < 0 || fileOK(tailOf(stemOf(name)), tags, KnownOS, KnownArch)
 //@   loop 1: invariant -1 <= rangeindex && (files == nil || fresh(files)) && oldObjectsUnchanged(H_Str)
